@@ -149,7 +149,7 @@ def run(ctx) -> None:
                     continue
                 need = set(_placeholders(table[vcs_name][cmd]))
                 # a site guarded by self.name == 'git' only needs to satisfy the git template (and vice versa)
-                guard = _name_guard(ctx, fn, call)
+                guard = shapes.name_guard(ctx, fn, call)
                 if guard is not None and guard != vcs_name:
                     continue
                 ctx.check("R3", need <= set(kws),
@@ -244,23 +244,3 @@ def run(ctx) -> None:
     ok_w = any(shapes.flows_from(cm, c.args[0], lambda e: isinstance(e, ast.Name) and e.id == "message") for c in writes if c.args)
     ctx.check("R3", ok_w, "VCSAPI.commit (hg): the log file content derives from `message`",
               "vcs.VCSAPI.commit: hg log file content does not derive from the message", f"writes: {[unparse(c) for c in writes]}", loc=cm.loc())
-
-
-def _name_guard(ctx, fn, call: ast.Call) -> T.Optional[str]:
-    """'git' if the site only runs when self.name == 'git'; 'hg' if only when it is not; else None."""
-    cfg = ctx.cfgs.get(fn.fq)
-    nid = cfg.node_containing(call)
-    if nid is None:
-        return None
-    from sa.pathcond import PathCond
-    pc = PathCond(cfg)
-    atom = "self.name == 'git'"
-    if atom not in pc.atoms:
-        return None
-    r = pc.reach(nid)
-    from sa.boolfn import BF
-    if r.implies(BF.var(atom)):
-        return "git"
-    if r.implies(~BF.var(atom)):
-        return "hg"
-    return None
